@@ -41,7 +41,7 @@ BUILTIN_CLASSES = {        # name classes of the BUILTIN site (Scopes.tla, Built
     "exception": ["ValueError", "OSError"],    # (not KeyError/NameError: the generated module itself says `except KeyError`)
 }
 BUILTIN_NAMES = [n for c in sorted(BUILTIN_CLASSES) for n in BUILTIN_CLASSES[c]]
-TOKENS = ["CTX", "PAGE", "BODY", "DEFARG", "ENCL", "LOOP", "MOD", "IMP", "BUILTIN", "UNDEFINED"]
+TOKENS = ["CTX", "PAGE", "BODY", "DEFARG", "ENCL", "LOOP", "MOD", "MOD0", "IMP", "BUILTIN", "UNDEFINED"]
 
 
 class runtime_builtin:
@@ -119,12 +119,63 @@ def inner_for(name, r):
     }[r]
 
 
-def build_case(S, r, name):
+MODLIB = {
+    "verif_modlib.py": "tok = lambda *a: 'MOD'\ntok0 = lambda *a: 'MOD0'\nother = 1\n",
+    "verif_pkg/__init__.py": "",
+    "verif_pkg/sub.py": "TOKEN = 'MOD'\n",
+}
+
+
+def install_modlib(run):
+    """importable helper modules for the imports= option (a scratch directory put on sys.path for this run)"""
+    import os
+    import sys
+    d = run.subdir("modlib")
+    files = dict(MODLIB)
+    for n in PLAIN_NAMES:
+        files[n + ".py"] = "TOKEN = 'MOD'\n"          # `import NAME` binds NAME to a module
+    for fn, text in files.items():
+        path = os.path.join(d, fn)
+        os.makedirs(os.path.dirname(path), exist_ok=True)
+        with open(path, "w") as f:
+            f.write(text)
+    if d not in sys.path:
+        sys.path.insert(0, d)
+    for n in list(sys.modules):
+        if n in PLAIN_NAMES or n.startswith(("verif_modlib", "verif_pkg")):
+            del sys.modules[n]
+    return d
+
+
+def module_sources(name, msrc):
+    """(<%! %> blocks, imports= statements) of the module-level source list that binds `name` (Scopes.tla, ModSources)"""
+    bind = "%s = %s" % (name, lam("MOD"))
+    bind0 = "%s = %s" % (name, lam("MOD0"))
+    imp = "from verif_modlib import tok as %s" % name
+    return {
+        "none": ([], []),
+        "block": ([bind], []),
+        "block1of2": ([bind, "mv_other = 1"], []),
+        "block2of2": (["mv_other = 1", bind], []),
+        "block_twice": ([bind0, bind], []),
+        "imp1of1": ([], [imp]),
+        "imp1of2": ([], [imp, "import os"]),
+        "imp2of2": ([], ["import os", imp]),
+        "imp2of3": ([], ["import os", imp, "from sys import path as mv_path"]),
+        "imp_multi": ([], ["from verif_modlib import other as mv_other, tok as %s" % name, "import os"]),
+        "imp_dotted_as": ([], ["import verif_pkg.sub as %s" % name, "import os"]),
+        "imp_plain": ([], ["import %s" % name, "import os"]),
+        "imp_and_block": ([bind], ["from verif_modlib import tok0 as %s" % name, "import os"]),
+    }[msrc]
+
+
+def build_case(S, r, name, msrc="block"):
     """The fixed skeleton with the binding sites of S active for `name` and one read at r."""
     has = lambda s: s in S
     t = ""
     if has("MOD"):
-        t += "<%%! %s = %s %%>\n" % (name, lam("MOD"))
+        for b in module_sources(name, msrc)[0]:
+            t += "<%%! %s %%>\n" % b
     if has("IMP"):
         t += "<%%namespace file='lib' import='%s'/>\n" % name
     if has("PAGE"):
@@ -158,6 +209,7 @@ class Env:
 
     def __init__(self, names):
         import builtins
+        import types
         from mako.runtime import UNDEFINED
         self.names = names
         bi = {getattr(builtins, n): n for n in BUILTIN_NAMES if hasattr(builtins, n)}
@@ -174,6 +226,8 @@ class Env:
             if callable(v):
                 r = v()
                 return r if isinstance(r, str) else "OTHER:%r" % (r,)
+            if isinstance(v, types.ModuleType) and hasattr(v, "TOKEN"):
+                return v.TOKEN             # a name bound by `import module [as name]`
             return "OTHER:%r" % (v,)
 
         def pick(v):
@@ -191,7 +245,8 @@ class Env:
 
 
 def observe_render(lk, uri, ctx, name, direct_filter=False):
-    """render and project: the token the read site produced, or the exception class"""
+    """render and project: the token the read site produced, or the exception class
+    (lk, uri): a lookup and a uri, or (None, callable returning the template)"""
     import builtins
     import re
     native = None
@@ -204,7 +259,7 @@ def observe_render(lk, uri, ctx, name, direct_filter=False):
         except Exception as e:  # noqa
             native = ("exc", type(e).__name__)
     try:
-        t = lk.get_template(uri)
+        t = lk.get_template(uri) if lk is not None else uri()
         out = re.sub(r"\s+", "", t.render_unicode(**ctx))
         if native == ("out", out) and out not in TOKENS:
             return "BUILTIN"
@@ -231,31 +286,48 @@ def run_case(case, rng):
     from mako.lookup import TemplateLookup
     S, r, strict = case["S"], case["r"], case["strict"]
     name = rng.choice(BUILTIN_CLASSES[case["bclass"]]) if "BUILTIN" in S else rng.choice(PLAIN_NAMES)
+    msrc = case.get("msrc", "block" if "MOD" in S else "none")
+    imports = module_sources(name, msrc)[1] if "MOD" in S else []
+    # where the options are given is free: on the lookup (for the templates it creates), on the Template itself,
+    # or the compiled module wrapped in a ModuleTemplate -- all three must behave alike
+    how = rng.choice(["lookup", "template", "module"])
+    opts = dict(strict_undefined=strict, enable_loop=(name != "loop"), imports=imports or None,
+                future_imports=rng.choice([None, ["annotations"]]))
     with runtime_builtin():
         env = Env([name])
-        lk = TemplateLookup(strict_undefined=strict, enable_loop=(name != "loop"))
+        lk = TemplateLookup(**opts) if how == "lookup" else TemplateLookup()
         lk.put_string("lib", env.lib())
         lk.put_string("echo_page", "<%page args='v'/>${v}")
         for tok in TOKENS:
             lk.put_string("t_" + tok, tok)
-        src = build_case(S, r, name)
-        lk.put_string("main", src)
+        src = build_case(S, r, name, msrc)
         ctx = dict(env.helpers)
         if "CTX" in S:
             ctx[name] = (lambda *a: "CTX")
-        obs = observe_render(lk, "main", ctx, name, direct_filter=(r == "R_FILTER"))
-    return obs, src, name
+        if how == "lookup":
+            lk.put_string("main", src)
+            obs = observe_render(lk, "main", ctx, name, direct_filter=(r == "R_FILTER"))
+        else:
+            def make():
+                from mako.template import ModuleTemplate, Template
+                t = Template(src, lookup=lk, uri="main", **opts)
+                return t if how == "template" else ModuleTemplate(t.module, lookup=lk, template_source=src)
+            obs = observe_render(None, make, ctx, name, direct_filter=(r == "R_FILTER"))
+    return obs, src + "\n## imports=%r via %s" % (imports, how), name
 
 
-def site_signature(S, r, strict, exp, obs, bclass="none"):
+def site_signature(S, r, strict, exp, obs, bclass="none", msrc="none"):
     if bclass not in ("none", "public"):
         r = r + "[" + bclass + "-builtin]"
+    if msrc not in ("none", "block"):
+        r = r + "[module-source:" + msrc + "]"
     obs_c = obs.split(":")[0] + (":" + obs.split(":")[1] if obs.startswith("exc:") else "")
     return "resolve:%s:%s:%s:expected-%s:got-%s" % (r, "+".join(sorted(S)) or "nowhere", "strict" if strict else "lax", exp, obs_c)
 
 
 def part_resolution(run):
     max_sites = 4 if run.thorough else 3
+    install_modlib(run)
     cfg = ("CONSTANTS MaxSites = %d\nClassSites = %d\nReadSites = {%s}\nSPECIFICATION Spec\n"
            "INVARIANT ResolveTotalAndOrdered\nINVARIANT HopsAscending\nINVARIANT StrictOnlyWhenMissing\nCHECK_DEADLOCK FALSE\n"
            % (max_sites, 3 if run.thorough else 2, ", ".join('"%s"' % r for r in ALL_READS)))
@@ -270,7 +342,10 @@ def part_resolution(run):
     for c in res.json_lines():
         if isinstance(c, dict) and "expect" in c and "r" in c:
             c["S"] = sorted(c["S"])
-            cases[(tuple(c["S"]), c["r"], c["strict"], c["bclass"])] = c
+            cases[(tuple(c["S"]), c["r"], c["strict"], c["bclass"], c["msrc"])] = c
+    if {c["msrc"] for c in cases.values()} != set(k for k in ("none", "block", "block1of2", "block2of2", "block_twice", "imp1of1", "imp1of2",
+                                                              "imp2of2", "imp2of3", "imp_multi", "imp_dotted_as", "imp_plain", "imp_and_block")):
+        raise MachineryError("not every module-level source enumerated")
     if {c["bclass"] for c in cases.values()} != set(BUILTIN_CLASSES) | {"none"}:
         raise MachineryError("not every builtin name class enumerated")
     if len(cases) < 500:
@@ -290,7 +365,7 @@ def part_resolution(run):
         run.traces += 1
         if obs != c["expect"]:
             n_bad += 1
-            run.violation(site_signature(c["S"], c["r"], c["strict"], c["expect"], obs, c["bclass"]),
+            run.violation(site_signature(c["S"], c["r"], c["strict"], c["expect"], obs, c["bclass"], c["msrc"]),
                           "read site %s with bindings %s (strict=%s): the spec's chain %s ends in %s, the template saw %s"
                           % (c["r"], c["S"], c["strict"], c["hops"], c["expect"], obs),
                           {"case": c, "template": src, "name": name, "observed": obs})
@@ -298,10 +373,14 @@ def part_resolution(run):
             run.sample({"part": "resolution", "S": c["S"], "r": c["r"], "strict": c["strict"], "hops": c["hops"],
                         "expect": c["expect"], "template": src}, limit=2)
     # negative control: a corrupted expectation must be noticed by the same comparison
-    c = dict(cases[keys[len(keys) // 2]])
-    obs, _, _ = run_case(c, run.rng)
-    wrong = "CTX" if c["expect"] != "CTX" else "MOD"
-    run.negative_control(obs != wrong and obs == c["expect"], "comparer accepted a corrupted expected token")
+    # (on a case where code and specification agree -- with broken code under test that need not be the middle one)
+    for k in keys[len(keys) // 2:] + keys[:len(keys) // 2]:
+        c = dict(cases[k])
+        obs, _, _ = run_case(c, run.rng)
+        if obs == c["expect"]:
+            wrong = "CTX" if c["expect"] != "CTX" else "MOD"
+            run.negative_control(obs != wrong, "comparer accepted a corrupted expected token")
+            break
     return cases
 
 
@@ -405,7 +484,7 @@ def _record_render(lk, t, ctx, names, reads, sets, bcls, strict):
         out = re.sub(r"\s+", "", lk.get_template("main").render_unicode(**ctx))
         got = dict(((m.group(1), m.group(2)), m.group(3)) for m in re.finditer(r"\{(\w+)/(\w+)=([^{}]*)\}", out))
         for (n, r) in reads:
-            events.append({"S": sorted(sets[n]), "r": r, "strict": strict, "obs": got.get((n, r), "missing"), "name": n, "bclass": bcls[n]})
+            events.append({"S": sorted(sets[n]), "r": r, "strict": strict, "obs": got.get((n, r), "missing"), "name": n, "bclass": bcls[n], "msrc": "block" if "MOD" in sets[n] else "none"})
     except NameError as e:
         # strict: the first missing name aborts the render; record that one read only
         m = re.search(r"'(\w+)' is not defined", str(e))
@@ -413,11 +492,11 @@ def _record_render(lk, t, ctx, names, reads, sets, bcls, strict):
         if type(e) is NameError and nm in names:
             # any read site of that variable whose spec result is NameError explains the abort; record the
             # by-construction earliest hoisting function: the body (hoists every undeclared name first)
-            events.append({"S": sorted(sets[nm]), "r": "*", "strict": strict, "obs": "NameError", "name": nm, "bclass": bcls[nm]})
+            events.append({"S": sorted(sets[nm]), "r": "*", "strict": strict, "obs": "NameError", "name": nm, "bclass": bcls[nm], "msrc": "block" if "MOD" in sets[nm] else "none"})
         else:
-            events.append({"S": [], "r": "R_BODY", "strict": strict, "obs": "exc:NameError:%s" % str(e)[:50], "name": "?", "bclass": "none"})
+            events.append({"S": [], "r": "R_BODY", "strict": strict, "obs": "exc:NameError:%s" % str(e)[:50], "name": "?", "bclass": "none", "msrc": "none"})
     except Exception as e:  # noqa
-        events.append({"S": [], "r": "R_BODY", "strict": strict, "obs": "exc:%s:%s" % (type(e).__name__, str(e)[:50]), "name": "?", "bclass": "none"})
+        events.append({"S": [], "r": "R_BODY", "strict": strict, "obs": "exc:%s:%s" % (type(e).__name__, str(e)[:50]), "name": "?", "bclass": "none", "msrc": "none"})
     return events
 
 
@@ -442,7 +521,7 @@ def part_recorded(run):
                 if vn == nm:
                     aid = tid * 1000 + k
                     alts.append(aid)
-                    traces.append({"id": aid, "events": [{"S": sorted(sets[nm]), "r": r, "strict": True, "obs": "NameError", "name": nm, "bclass": sets_b[nm]}]})
+                    traces.append({"id": aid, "events": [{"S": sorted(sets[nm]), "r": r, "strict": True, "obs": "NameError", "name": nm, "bclass": sets_b[nm], "msrc": "block" if "MOD" in sets[nm] else "none"}]})
             strict_groups.append((tid, alts, ev[0]))
         elif ev:
             traces.append({"id": tid, "events": ev})
